@@ -3,9 +3,8 @@
 // cw-utils, cw-ownable).  Numeric types are modelled as bounded mathematical integers:
 // the `v` field is the machine value, operations are specified by the documented integer
 // formula together with an explicit range side condition (Ok iff in range).
-// Panicking operators (`+`, `*`, `-`, `/` on Uint*/Decimal*) are specified only when the
-// real operation does not panic; when it would panic (the transaction aborts) the result
-// is unspecified, which over-approximates an abort and is sound for safety properties.
+// Panicking operations are specified for the runs that return (partial correctness): a panic
+// aborts the transaction; see shim/num.rs.
 
 use vstd::prelude::*;
 use vstd::std_specs::convert::FromSpecImpl;
@@ -48,6 +47,22 @@ impl PartialEqSpecImpl for Str {
     open spec fn eq_spec(&self, other: &Str) -> bool { self@ == other@ }
 }
 
+impl<'a> PartialEq<Str> for &'a Str {
+    #[verifier::external_body]
+    fn eq(&self, other: &Str) -> (r: bool) ensures r == ((*self)@ == other@) { unimplemented!() }
+}
+impl<'a> PartialEqSpecImpl<Str> for &'a Str {
+    open spec fn obeys_eq_spec() -> bool { true }
+    open spec fn eq_spec(&self, other: &Str) -> bool { (*self)@ == other@ }
+}
+impl<'a> PartialEq<&'a Str> for Str {
+    #[verifier::external_body]
+    fn eq(&self, other: &&'a Str) -> (r: bool) ensures r == (self@ == (*other)@) { unimplemented!() }
+}
+impl<'a> PartialEqSpecImpl<&'a Str> for Str {
+    open spec fn obeys_eq_spec() -> bool { true }
+    open spec fn eq_spec(&self, other: &&'a Str) -> bool { self@ == (*other)@ }
+}
 impl Str {
     /// string literal
     #[verifier::external_body]
@@ -100,6 +115,8 @@ pub struct ConversionOverflowError { pub tag: Ghost<int> }
 pub struct DivisionError { pub tag: Ghost<int> }
 pub struct Decimal256RangeExceeded { pub tag: Ghost<int> }
 pub struct DecimalRangeExceeded { pub tag: Ghost<int> }
+pub struct Instantiate2AddressError { pub tag: Ghost<int> }
+pub type StdResult<T> = Result<T, StdError>;
 pub enum PaymentError { MissingDenom, ExtraDenom, MultipleDenoms, NoFunds, NonPayable }
 pub enum OwnershipError { Std, NoOwner, NotOwner, NotPendingOwner, TransferNotFound, TransferExpired }
 
@@ -124,6 +141,9 @@ macro_rules! std_error_from {
     } )* }
 }
 
+} // verus!
+std_error_from!(OverflowError, DivideByZeroError, CheckedMultiplyRatioError, CheckedMultiplyFractionError, CheckedFromRatioError, ConversionOverflowError, Decimal256RangeExceeded, DecimalRangeExceeded);
+verus! {
 // ---------------------------------------------------------------- to_string (R4: `.to_string()` -> `.to_str_()`)
 pub trait ToStr_ { fn to_str_(&self) -> Str; }
 impl ToStr_ for Str { fn to_str_(&self) -> (r: Str) ensures r == *self { self.clone() } }
@@ -132,14 +152,14 @@ impl ToStr_ for u64 { #[verifier::external_body] fn to_str_(&self) -> (r: Str) e
 impl ToStr_ for u32 { #[verifier::external_body] fn to_str_(&self) -> (r: Str) { unimplemented!() } }
 impl ToStr_ for u8 { #[verifier::external_body] fn to_str_(&self) -> (r: Str) { unimplemented!() } }
 impl ToStr_ for usize { #[verifier::external_body] fn to_str_(&self) -> (r: Str) { unimplemented!() } }
+impl ToStr_ for OverflowError { #[verifier::external_body] fn to_str_(&self) -> (r: Str) { unimplemented!() } }
 impl ToStr_ for bool { #[verifier::external_body] fn to_str_(&self) -> (r: Str) { unimplemented!() } }
 impl ToStr_ for Uint64 { #[verifier::external_body] fn to_str_(&self) -> (r: Str) { unimplemented!() } }
 impl ToStr_ for Uint128 { #[verifier::external_body] fn to_str_(&self) -> (r: Str) { unimplemented!() } }
 /// decimal rendering of a u64 (injective; the digits themselves are not modelled)
 pub uninterp spec fn u64_str(n: u64) -> Seq<char>;
-pub broadcast proof fn u64_str_injective(a: u64, b: u64)
-    ensures #[trigger] u64_str(a) == #[trigger] u64_str(b) ==> a == b
-{ admit(); }
+pub broadcast axiom fn u64_str_injective(a: u64, b: u64)
+    ensures #[trigger] u64_str(a) == #[trigger] u64_str(b) ==> a == b;
 
 // ---------------------------------------------------------------- Timestamp (nanoseconds, u64)
 #[derive(Copy)]
@@ -150,17 +170,17 @@ impl Timestamp {
     /// product above u64::MAX panics (transaction aborts) -> result unspecified in that case.
     #[verifier::external_body]
     pub fn from_seconds(s: u64) -> (r: Timestamp)
-        ensures (s as nat) * 1_000_000_000 <= U64_MAX ==> r.nanos as nat == (s as nat) * 1_000_000_000
+        ensures (s as nat) * 1_000_000_000 <= U64_MAX, r.nanos as nat == (s as nat) * 1_000_000_000
     { unimplemented!() }
     pub fn seconds(&self) -> (r: u64) ensures r == self.nanos / 1_000_000_000 { self.nanos / 1_000_000_000 }
     pub fn nanos(&self) -> (r: u64) ensures r == self.nanos { self.nanos }
     #[verifier::external_body]
     pub fn plus_seconds(&self, s: u64) -> (r: Timestamp)
-        ensures (self.nanos as nat) + (s as nat) * 1_000_000_000 <= U64_MAX ==> r.nanos as nat == (self.nanos as nat) + (s as nat) * 1_000_000_000
+        ensures (self.nanos as nat) + (s as nat) * 1_000_000_000 <= U64_MAX, r.nanos as nat == (self.nanos as nat) + (s as nat) * 1_000_000_000
     { unimplemented!() }
     #[verifier::external_body]
     pub fn minus_seconds(&self, s: u64) -> (r: Timestamp)
-        ensures (s as nat) * 1_000_000_000 <= self.nanos as nat ==> r.nanos as nat == (self.nanos as nat) - (s as nat) * 1_000_000_000
+        ensures (s as nat) * 1_000_000_000 <= self.nanos as nat, r.nanos as nat == (self.nanos as nat) - (s as nat) * 1_000_000_000
     { unimplemented!() }
     pub fn lt(&self, o: &Timestamp) -> (r: bool) ensures r == (self.nanos < o.nanos) { self.nanos < o.nanos }
     pub fn le(&self, o: &Timestamp) -> (r: bool) ensures r == (self.nanos <= o.nanos) { self.nanos <= o.nanos }
